@@ -20,11 +20,14 @@ type Workload struct {
 	Params      map[string]map[string]any
 	Concurrency int
 	GoVersion   string
+	// SkipGenerated: -checkGenerated=false (the shipped default), files with a
+	// "Code generated" header are not analysed
+	SkipGenerated bool
 }
 
 // Args renders the workload as go-critic check flags.
 func (wl *Workload) Args() []string {
-	args := []string{"-shorterErrLocation=false", "-checkGenerated=true"}
+	args := []string{"-shorterErrLocation=false", "-checkGenerated=" + fmt.Sprint(!wl.SkipGenerated)}
 	if wl.EnableAll {
 		args = append(args, "-enableAll")
 	} else {
@@ -67,6 +70,8 @@ func (w *Worker) parseWorkload(args []string) *Workload {
 			if v != "" {
 				wl.Checkers = strings.Split(v, ",")
 			}
+		case k == "checkGenerated":
+			wl.SkipGenerated = v == "false"
 		case k == "concurrency":
 			wl.Concurrency, _ = strconv.Atoi(v)
 		case k == "go":
@@ -182,6 +187,7 @@ func (w *Worker) genWorkload(r *simrt.Rand, pkgs []string, allowAll bool) *Workl
 		}
 		wl.Params["ruleguard"] = map[string]any{"rules": rulesGlob()}
 	}
+	wl.SkipGenerated = r.Intn(3) == 0
 	n := len(wl.Checkers)
 	concs := []int{1, 2, 3, n/2 + 1, n, 2 * n, 16}
 	wl.Concurrency = concs[r.Intn(len(concs))]
@@ -275,7 +281,7 @@ func (w *Worker) refForVisits(wl *Workload, visits []simapi.Visit, cliLevel bool
 			for _, c := range wl.Checkers {
 				var e *RefEntry
 				if cliLevel {
-					e = w.refDiagsCLI(c, wl.Params[c], wl.GoVersion, vis.Pkg, fi, vis.DeclSeed)
+					e = w.refDiagsCLI(wl, c, vis.Pkg, fi, vis.DeclSeed)
 				} else {
 					e = w.refDiagsPerm(c, wl.Params[c], wl.GoVersion, vis.Pkg, fi, vis.DeclSeed)
 				}
